@@ -34,20 +34,38 @@ def plan_C02(ck):
               nontrivial=cf.nontrivial_world)
 
 
+def router_models(ck):
+    note = "L2 routers in exact integer arithmetic refine FlowContract!C04 / C05 for every field over the levels, every mask and base-level set given"
+    ck.model("Router-2x3-queen-anisotropic", "MCRouter.tla", "MCRouter_q23.cfg", note=note, workers=8)
+    ck.model("Router-profile4-looped", "MCRouter.tla", "MCRouter_p4.cfg", note=note, workers=8)
+    ck.model("Router-minimum-slope-threshold", "MCRouter.tla", "MCRouter_q23_threshold.cfg", expect="violation", workers=8,
+             note="negative control: a minimum-slope test (the slope > DBL_MIN defect) leaves nodes with a strictly lower neighbour as pits")
+    if ck.tier == "thorough":
+        ck.model("Router-2x3-rook-looped-4levels", "MCRouter.tla", "MCRouter_r23.cfg", note=note, workers=8)
+
+
 def plan_C04(ck):
     q = ck.tier == "quick"
+    router_models(ck)
     ck.traces(cf.router_cases(ck.seed + 4, 300 if q else 8000, 5 if q else 8, "C04"), ["C04"], tag="c04",
               nontrivial=cf.nontrivial_world)
 
 
 def plan_C05(ck):
     q = ck.tier == "quick"
+    router_models(ck)
     ck.traces(cf.router_cases(ck.seed + 5, 200 if q else 6000, 5 if q else 7, "C05", multi=True), ["C05"], tag="c05",
               nontrivial=cf.nontrivial_world)
 
 
 def plan_C06(ck):
     q = ck.tier == "quick"
+    note = "L2 traversal-order algorithm, one action per loop iteration, on EVERY forest / DAG of that size: terminal state satisfies FlowContract!C06Dfs / C06Bfs, arrays never overrun, terminates"
+    for name, cfg in (("Orders-dfs-bottomup-forests", "dfsbu"), ("Orders-dfs-topdown-dags", "dfstd"),
+                      ("Orders-bfs-forests", "bfs%ss"), ("Orders-bfs-dags", "bfs%sm")):
+        sz = "4" if q else "5"
+        c = cfg % sz if "%s" in cfg else cfg + sz
+        ck.model(name + "-" + sz + "nodes", "Orders.tla", "MCOrders_%s.cfg" % c, note=note, workers=16, timeout=3000)
     ck.traces(cf.state_cases(ck.seed + 6, 150 if q else 4000, 5 if q else 8, "C06"), ["C06"], tag="c06",
               nontrivial=cf.nontrivial_world)
 
